@@ -258,13 +258,23 @@ def dpor_extra_spaces(which):
     import dporcheck
     S = {
         "chan": lambda: {"label": "dporChan", "n": 3, "progs": dporcheck.space2(3, ["send", "st", "ld"], ["recv", "tryrecv", "ld"], ["x"], ["m"], 2, 2, chan=True)},
+        # channel operations inside critical sections (a receiver that blocks while it holds the mutex a sender needs: real deadlocks)
+        "csch": lambda: {"label": "dporCsCh", "n": 3, "progs": dporcheck.space2(3, ["send", "cssend", "st"], ["recv", "csrecv", "tryrecv"], ["x"], ["m"], 2, 2, chan=True)},
+        "trych": lambda: {"label": "dporTryCh", "n": 3, "invariants": ["Sound"],
+                          "progs": dporcheck.space2(3, ["trysend", "send", "cssend"], ["csrecv", "recv"], ["x"], ["m"], 1, 2, chan=True)},
         "arc1": lambda: {"label": "dporArc1", "n": 3, "progs": dporcheck.space2(3, ["acount", "aclonedrop", "ld"], ["acount"], ["x"], ["m"], 1, 1, arc=True)},
         "arc2": lambda: {"label": "dporArc2", "n": 3, "progs": dporcheck.space2(3, ["acount", "aclonedrop", "acloneinspectdrop"], [], ["x"], ["m"], 1, 0, arc=True)},
         # spaces in which the design itself is known to be incomplete (F15, F17, F13): conformance of the schedule sets only
         "park": lambda: {"label": "dporPark", "n": 3, "invariants": False,
                          "progs": dporcheck.space2(3, ["park", "ld", "st"], ["ld", "st"], ["x"], ["m"], 2, 1, unpark_to=(1, 2, 3))},
         "yield": lambda: {"label": "dporYield", "n": 3, "invariants": False, "progs": dporcheck.space(3, ["ld", "st", "csld", "yield"], ["x", "y"], ["m"], 2, 0)},
-        "try": lambda: {"label": "dporTry", "n": 3, "invariants": False, "progs": dporcheck.space(3, ["ld", "st", "csld", "try"], ["x"], ["m"], 2, 0)},
+        "try": lambda: {"label": "dporTry", "n": 3, "invariants": ["Sound"], "progs": dporcheck.space(3, ["ld", "st", "csld", "try"], ["x"], ["m"], 2, 0)},
+        # two mutexes, nested: a holder that blocks on the second lock next to one that only tries it (no deadlock between them;
+        # TLC found the false deadlock F22 here: Sound)
+        "try2": lambda: {"label": "dporTry2", "n": 3, "invariants": ["Sound"],
+                         "progs": dporcheck.space(3, ["nest", "nesttry", "nestld", "st"], ["x"], ["m", "n"], 1, 0)},
+        "try2b": lambda: {"label": "dporTry2b", "n": 3, "invariants": ["Sound"],
+                          "progs": dporcheck.space(3, ["nest", "nesttry"], ["x"], ["m", "n"], 2, 0)},
         # main joins every thread (JoinHandle::join = Notify::wait) and reads the locations afterwards
         "join": lambda: {"label": "dporJoin", "n": 3, "progs": dporcheck.space_joined(3, ["ld", "st", "csst", "csld"], ["x", "y"], ["m"], 2, ["x", "y"])},
         # Condvar (FIFO wake-up, lost notifications, notify with and without the mutex): deadlocks are outcomes too
@@ -275,7 +285,7 @@ def dpor_extra_spaces(which):
         "nt2": lambda: {"label": "dporNt2", "n": 2, "progs": dporcheck.space2(2, ["stnotify", "notify", "st"], ["nwaitld", "nwait", "ld"], ["x"], ["m"], 2, 3)},
         "rw": lambda: {"label": "dporRw", "n": 3, "progs": dporcheck.space(3, ["rdld", "wrst", "wrld", "ld", "st"], ["x"], ["m"], 2, 0)},
         "rw4": lambda: {"label": "dporRw4", "n": 4, "progs": dporcheck.space(4, ["rdld", "wrst", "rdst"], ["x"], ["m"], 1, 0)},
-        "rwtry": lambda: {"label": "dporRwTry", "n": 3, "invariants": False,
+        "rwtry": lambda: {"label": "dporRwTry", "n": 3, "invariants": ["Sound"],
                           "progs": dporcheck.space(3, ["rdld", "wrst", "tryrd", "trywr"], ["x"], ["m"], 2, 0)},
         # exploration controls: stop_exploring regions around stores (loads inside a region return loom's default candidate),
         # reference = every decision outside a region is taken, none inside (Dpor.tla RefFrom with frozen scheduling)
@@ -326,14 +336,19 @@ def C05(ctx):
                         "(a spurious Notify return is never guaranteed)",
                         "park token independent of every other kind of blocking (std semantics)"]
     sync_family(ctx, families.blocking(ctx.tier, ctx.seed), want=("fails", "sound", "complete", "trace"))
+    # Dpor.tla over nested sections of two mutexes: lock-order inversions must be reported (Complete), a holder that only TRIES
+    # its second lock never deadlocks with anybody (Sound: F22)
+    dpor_space(ctx, [None], ("C01",), quick_sample=30, spaces=dpor_extra_spaces(["try2", "trych"] + (["try2b", "csch"] if ctx.tier == "thorough" else []))
+               + [("dporNest", 3, ["nest", "csld"], ["x"], ["m", "n"], 1, 0)])
 
 
 def C07(ctx):
     ctx.assumptions += ["trace validation evaluates the spec lock machine's enabling condition at every recorded "
                         "lock/try_lock/read/write/try_* event; protected cells make a missing hand-over edge a race"]
     sync_family(ctx, families.locks(ctx.tier, ctx.seed))
-    # Dpor.tla with Mutex and RwLock (who is blocked, who is woken): whole program spaces; try_* spaces: conformance only (F13)
-    dpor_space(ctx, [None], ("C01",), quick_sample=150, spaces=dpor_extra_spaces(["rw", "rw4", "rwtry", "try"]) +
+    # Dpor.tla with Mutex and RwLock (who is blocked, who is woken): whole program spaces; try_* spaces: the invariant Sound
+    # (no false deadlock: F22) and conformance; completeness is not claimed for them (F13)
+    dpor_space(ctx, [None], ("C01",), quick_sample=150, spaces=dpor_extra_spaces(["rw", "rwtry", "try", "try2"] + (["rw4", "try2b"] if ctx.tier == "thorough" else [])) +
                [("dpor2m", 3, ["csld", "csst", "st"], ["x"], ["m", "n"], 2, 0)])
 
 
@@ -351,6 +366,7 @@ def C09(ctx):
     sync_family(ctx, families.chans(ctx.tier, ctx.seed))
     # Dpor.tla with the channel's dependence classes: every program of the space, reference = full interleavings (TLC)
     dpor_space(ctx, [None], ("C01",), quick_sample=200, spaces=dpor_extra_spaces(["chan"]))
+    dpor_space(ctx, [None], ("C01",), quick_sample=25, thorough_sample=400, spaces=dpor_extra_spaces(["csch"]))
 
 
 def C10(ctx):
@@ -392,6 +408,15 @@ def path_programs(ctx, n_per=None):
     full.append(dsl.normalize({"threads": [[dsl.spawn(2), dsl.spawn(3), dsl.join(2), dsl.join(3)], [dsl.I("tlwith", "T0"), dsl.I("tlwith", "T1")],
                                             [dsl.ld("tl0c", "sc"), dsl.ld("tl1c", "sc")]],
                                "name": "tl-destructors-with-loom-operations", "atoms": ["tl0c", "tl1c"], "tags": ["c13only"]}))
+    # a thread yields while it is the only one that can run and then makes another thread runnable before its next
+    # scheduling point: who runs then is decided by per-execution thread state (yielded or not), which a resumed run
+    # builds afresh and an uninterrupted run carries from the previous iteration's reset
+    full.append(dsl.normalize(families.P("yield-alone-then-spawn", [dsl.spawn(2), dsl.ld("x"), dsl.join(2), dsl.I("yield"), dsl.spawn(3), dsl.ld("x"), dsl.join(3)],
+                                         [dsl.st("x", 1)], [dsl.st("x", 2)])))
+    full.append(dsl.normalize(families.P("yield-alone-in-thread-then-spawn", [dsl.spawn(2), dsl.ld("x"), dsl.join(2)],
+                                         [dsl.st("x", 1), dsl.I("yield"), dsl.spawn(3), dsl.ld("x"), dsl.join(3)], [dsl.st("x", 2)])))
+    full.append(dsl.normalize(families.P("yield-alone-then-unpark", [dsl.spawn(2), dsl.ld("x"), dsl.I("yield"), dsl.unpark(2), dsl.ld("x"), dsl.join(2)],
+                                         [dsl.st("x", 1), dsl.I("park"), dsl.st("x", 2)])))
     return full + pool[:max(0, n_per - len(full))]
 
 
@@ -497,7 +522,7 @@ def C13(ctx):
         if r["end"] in ("other", "hang") or r["end"].startswith("abort"):
             ctx.violation("unexpected-panic", p, r["end"], {"msg": r["msg"][:200], "iters": r["iters"]})
     base = [(p, r) for p, r in zip(pool, U1) if r["end"] == "ok" and 3 <= r["iters"] <= 2000]
-    base = base[: (14 if ctx.tier == "quick" else 60)]
+    base = base[: (17 if ctx.tier == "quick" else 60)]
     progs = [p for p, _ in base]
     U1 = [r for _, r in base]
     U2 = core.run_loom(ctx, progs, cfg_of=lambda p: cfgU, tag="u2")
@@ -1237,6 +1262,26 @@ def C16(ctx):
                                                                  "solo_iters": ref[ai]["iters"]}, {"msg": ra["msg"]})
         if oname == A[ai].get("name") and not same(CR[2 * k + 1], ref[ai]):
             ctx.violation("depends-on-concurrent-model", A[ai], {"alongside": "itself (second copy)", "end": CR[2 * k + 1]["end"]}, {})
+    # the configuration of `loom::model` is read from the environment at EVERY call: a model that ran earlier under
+    # LOOM_MAX_PREEMPTIONS / LOOM_MAX_BRANCHES must not decide the limits of a later one in the same process
+    eitems, emeta = [], []
+    for ai, a in enumerate(A):
+        for first in ({"LOOM_MAX_PREEMPTIONS": "1"}, {"LOOM_MAX_BRANCHES": "3"}, {"LOOM_MAX_PERMUTATIONS": "2", "LOOM_CHECKPOINT_INTERVAL": "1"}):
+            unset = {k: "" for k in first}
+            eitems += [{"prog": a, "cfg": dict(cfgB, via_model=True, env=first)}, {"prog": a, "cfg": dict(cfgA, via_model=True, env=unset)}]
+            emeta.append((ai, first))
+    ER = loomrun.run_items(os.path.join(ctx.work, "env"), eitems, jobs=ctx.jobs, tag="env", extra_args=["--group", "2"])
+    for k, (ai, first) in enumerate(emeta):
+        r1, r2 = ER[2 * k], ER[2 * k + 1]
+        cmp_runs += 1
+        if not same(r2, ref[ai]):
+            ctx.violation("depends-on-earlier-model", A[ai], {"after": "the same model under " + json.dumps(first), "end": r2["end"], "iters": r2["iters"],
+                                                              "solo_iters": ref[ai]["iters"]}, {"msg": r2["msg"]})
+        # and the first run did obey its own environment (otherwise the comparison above decides nothing)
+        if "LOOM_MAX_PERMUTATIONS" in first and ref[ai]["iters"] > 2 and r1["iters"] > 2:
+            ctx.violation("environment-ignored", A[ai], {"env": first, "iters": r1["iters"]}, {})
+        if "LOOM_MAX_BRANCHES" in first and r1["end"] != "branches":
+            ctx.violation("environment-ignored", A[ai], {"env": first, "end": r1["end"]}, {"msg": r1["msg"]})
     ctx.cov["programs"] += len(A) + len(B)
     ctx.cov["evaluations"] += cmp_runs
     ctx.cov["distinct_nontrivial"] += cmp_runs
